@@ -155,6 +155,8 @@ def check(R, F, P, cfg):
             outside.append(f.npath)
     R.inst("R16.3", "no-outside-store", not outside, "Cell<u16> stores outside the marker modules: %s" % (outside or "none"), cfg=cfg, nontrivial=False)
 
+    flag_roundtrip(R, F, P, cfg)
+
     # ---- R16.4 error discipline ------------------------------------------------------------------------------------------
     R.doc("R16.4", "callers of a fallible increment outside the marker modules: the Err edge leads only to a diverging panic, no effect in between, and the pointer aggregate is built on the Ok edge only; "
                    "ignored results: new_cyclic (count 0 -> 1 cannot overflow), tracing-counter increments and decrements checked by debug_assert only (cannot under/overflow by R1.* invariants)")
@@ -314,3 +316,92 @@ def _or_all(vs):
     for v in vs:
         r |= v
     return r
+
+
+# ---- R16.5: setter / getter agreement on the flag bits (known-bits abstract interpretation) --------------------------------------
+
+def _kb_const(c):
+    return (M16, c & M16)
+
+
+def _kb(e, loadv):
+    """Known-bits value (known mask, bits) of a u16 expression in which every `load(cell)` has the abstract value loadv."""
+    e = strip(e)
+    if isinstance(e, tuple) and e:
+        if e[0] == "const" and isinstance(e[1], int):
+            return _kb_const(e[1])
+        if e[0] == "load":
+            return loadv
+        if e[0] == "un" and e[1] == "Not":
+            k, b = _kb(e[2], loadv)
+            return (k, ~b & k & M16)
+        if e[0] == "bin" and e[1] in ("BitOr", "BitAnd"):
+            (ka, ba), (kb, bb) = _kb(e[2], loadv), _kb(e[3], loadv)
+            if e[1] == "BitOr":
+                ones = (ka & ba) | (kb & bb)
+                zeros = (ka & ~ba) & (kb & ~bb)
+            else:
+                ones = (ka & ba) & (kb & bb)
+                zeros = (ka & ~ba) | (kb & ~bb)
+            return ((ones | zeros) & M16, ones & M16)
+    return (0, 0)
+
+
+def _kb_pred(e, loadv):
+    """True / False / None (unknown) for a getter's result `(.. ) == c`, `!= c` over known bits."""
+    e = strip(e)
+    if isinstance(e, tuple) and e and e[0] == "bin" and e[1] in ("Eq", "Ne"):
+        (ka, ba), (kb, bb) = _kb(e[2], loadv), _kb(e[3], loadv)
+        both = ka & kb
+        differ = both & (ba ^ bb)
+        if differ:
+            r = False
+        elif ka == M16 and kb == M16:
+            r = True
+        else:
+            return None
+        return r if e[1] == "Eq" else (not r)
+    if isinstance(e, tuple) and e and e[0] == "un" and e[1] == "Not":
+        r = _kb_pred(e[2], loadv)
+        return None if r is None else (not r)
+    return None
+
+
+def flag_roundtrip(R, F, P, cfg):
+    R.doc("R16.5", "setter/getter agreement, by known-bits abstract interpretation of both bodies: after set_X(true) the getter of X is definitely true (all the bits it tests are set), after set_X(false) definitely false, whatever the rest of the word holds")
+    pairs = [(CM + "set_dropped", CM + "is_dropped", True, "weak-ptrs"), (CM + "set_finalized", CM + "needs_finalization", False, "finalization"),
+             (CM + "set_allocated_for_metadata", CM + "has_allocated_for_metadata", True, "weak-ptrs"), (WCM + "set_accessible", WCM + "is_accessible", True, "weak-ptrs")]
+    k = 0
+    for (setter, getter, pos, feat) in pairs:
+        if feat and not F.has(feat):
+            continue
+        sf, gf = F.fn(setter), F.fn(getter)
+        if sf is None or gf is None:
+            R.inst("R16.5", "roundtrip:%s" % short(setter), False, "%s / %s not found" % (setter, getter), cfg=cfg)
+            continue
+        Sg = Super(P, gf, opaque=set())
+        gvals = [tables.SymExec(Sg, p.path).retval for p in tables.normal_paths(Sg)]
+        Ss = Super(P, sf, opaque=set())
+        probs = []
+        seen = set()
+        for p in tables.normal_paths(Ss):
+            X = tables.SymExec(Ss, p.path)
+            arg = None
+            for a, t in X.literals:
+                if a[0] == "bool" and strip(a[1])[:1] == ("param",) and t in (True, False):
+                    arg = t
+            stores = [(tgt, val) for (tgt, val, n) in X.stores if "counter" in fmt(strip(tgt))]
+            if arg is None or len(stores) != 1:
+                probs.append("path [%s]: flag argument %s, %d store(s)" % (p.describe()[:60], arg, len(stores)))
+                continue
+            seen.add(arg)
+            stored = _kb(stores[0][1], (0, 0))
+            for gv in gvals:
+                r = _kb_pred(gv, stored)
+                want = (arg if pos else (not arg))
+                if r is not want:
+                    probs.append("after %s(%s) the word is %s (known mask %#x, bits %#x): %s() = %s is %s, must be %s" % (short(setter), str(arg).lower(), fmt(stores[0][1])[:50], stored[0], stored[1], short(getter), fmt(gv)[:60], {True: "true", False: "false", None: "not determined"}[r], str(want).lower()))
+        k += 1
+        R.inst("R16.5", "roundtrip:%s" % short(setter), not probs and seen == {True, False} and len(gvals) == 1, "%s vs %s: %s" % (short(setter), short(getter), probs[:2] or "set(true) => getter %s, set(false) => getter %s, for every value of the other bits" % (pos, not pos)), where=sf.span, cfg=cfg)
+    if F.has("weak-ptrs") or F.has("finalization"):
+        R.floor("R16.5", cfg, 1, k)
